@@ -50,6 +50,16 @@ def corpus(tier, seed):
         for cn in ("top", "fnbody", "arg"):
             out.append({"prog": w[cn], "ctx": cn, "src": "interop", "base": base})
         base += 1
+    for p in G.arity_programs(rnd, 300 if tier == "quick" else 3000):
+        w = G.contexts(p)
+        for cn in ("top", "fnbody", "arg", "fnstmt"):
+            out.append({"prog": w[cn], "ctx": cn, "src": "arity", "base": base})
+        base += 1
+    for p in G.letfn_programs(rnd, 80 if tier == "quick" else 800):
+        w = G.contexts(p)
+        for cn in ("top", "fnstmt", "letstmt", "ifstmt", "arg"):
+            out.append({"prog": w[cn], "ctx": cn, "src": "letfn", "base": base})
+        base += 1
     nrand = 2500 if tier == "quick" else 40000
     for t in range(nrand):
         depth = rnd.choice([2, 3, 3, 4, 4, 5] if tier == "quick" else [3, 4, 4, 5, 5, 6])
